@@ -344,7 +344,7 @@ pub fn def() -> CheckDef {
             // the single-run part (a call failing with a "does not affect state" error emits nothing and leaves
             // the observable state untouched) as a monitor on the shared histories, chaos pool and exhaustive batches
             Batch { scenario: &crate::checks::histchecks::H17, quick: 40_000, thorough: 3_000_000 },
-            Batch { scenario: crate::checks::histchecks::chaos_for("C17"), quick: 2_000, thorough: 150_000 },
+            Batch { scenario: crate::checks::histchecks::chaos_for("C17"), quick: 6_000, thorough: 150_000 },
             Batch { scenario: crate::checks::histchecks::exhaustive_for("C17"), quick: 0, thorough: 0 },
         ],
         extra: None,
